@@ -653,8 +653,13 @@ F2B_MESSAGES = ("from_graph cannot find output block", "Chunks do not add up", "
 def sole_generic_driver(case, result):
     """F2b is a LOUD failure with a documented message; anything else a run with dask.persist /
     dask.optimize shows (a wrong value, another exception) is not explained by it."""
-    return result.get("cls") in ("entry-point-raises", "raises-under-history") and any(
-        t in str(result.get("detail")) for t in F2B_MESSAGES)
+    if result.get("cls") in ("entry-point-raises", "raises-under-history") and any(
+            t in str(result.get("detail")) for t in F2B_MESSAGES):
+        return True
+    # the SILENT variant (listed under C06 too): dask.persist(x) keeps x's name and advertised chunks but
+    # holds the blocks of the rewritten grid, so operations applied to it compute other values
+    return result.get("cls") == "entry-points-disagree" and any(
+        e["ev"] == "persist" and e.get("entry") == "dask" for e in case.get("history", []))
 
 
 def abl_generic_driver(case):
